@@ -1,11 +1,6 @@
 SPECIFICATION Spec
 CONSTANTS
-  NB = 2
-  IL = 2
-  RowSz = 2
-  Width = 2
-  Track = TRUE
-  Deviations <- NoDev
+  Config <- DesignT2
   PortCap = 2
   PostCap = 2
   Payloads <- MCPayloads
